@@ -61,6 +61,7 @@ def predict(program, cfg):
     p = Pred()
     stop = bool(cfg.get("stop"))
     dry = bool(cfg.get("dry_run"))
+    user_skip = set(program.get("user_skip") or ())
     cafs = bool(cfg.get("cafs"))
     outcomes = program["outcomes"]
     state = {"halt": False, "any_failed": False, "dry_undefined": False}
@@ -234,6 +235,20 @@ def predict(program, cfg):
                 for t in node["tags"]:
                     p.hooks.append(("before_tag", None, t))
                 p.hooks.append(("before_" + kind, node["name"], None))
+            if hooks_on and node["name"] in user_skip:
+                # user code calls feature.skip() / rule.skip() in the before-hook: everything inside is reported skipped, nothing
+                # inside is called, the after-hooks of the container still run
+                for i in inside:
+                    nm = i["name"]
+                    p.selected[nm] = False
+                    p.started[nm] = False
+                    p.step_status[nm] = [{"skipped"} for _ in i["steps"]]
+                    p.scen_status[nm] = {"skipped"}
+                    p.scen_failed[nm] = False
+                p.hooks.append(("after_" + kind, node["name"], None))
+                for t in node["tags"]:
+                    p.hooks.append(("after_tag", None, t))
+                return False
             failed_any = False
             broke = False
             for it in node["items"]:
